@@ -267,15 +267,19 @@ def normalize_url(
         url = "http://" + url
 
     # Platform-specific magic
+    # NOTE: the platform parsers raise on urls the standard parser rejects
     if platform_aware:
-        if is_facebook_url(url):
-            p = parse_facebook_url(url)
+        try:
+            if is_facebook_url(url):
+                p = parse_facebook_url(url)
 
-            if p is not None:
-                url = p.url
+                if p is not None:
+                    url = p.url
 
-        elif is_youtube_url(url):
-            url = normalize_youtube_url(url)
+            elif is_youtube_url(url):
+                url = normalize_youtube_url(url)
+        except ValueError:
+            return original_url_arg
 
     # Parsing
     # NOTE: an out-of-range or non-numeric port only raises when accessed
